@@ -175,6 +175,7 @@ class Env:
         self.raise_conn_sub = False
         self.raise_msg_sub = False
         self.conn_sub_sends = []
+        self.fail_counter = 0
         self.api_tasks = []
         self.close_tasks = []
         self._setup_socket()
@@ -398,6 +399,11 @@ class Env:
                 c = self.latest()
                 if c is not None and not c.conn_lost:
                     c.fail_writes = bool(op[1])
+                    if len(op) > 2:
+                        c.fail_kind = op[2]
+                    else:
+                        self.fail_counter += 1          # rotate through the error kinds a failing send() can report
+                        c.fail_kind = self.fail_counter
                     self.rec.emit("envFailWrites", c.cid, 1 if op[1] else 0, ticks(self.loop.time()))
             elif k == "block":
                 c = self.latest()
@@ -439,6 +445,15 @@ class Env:
                             self.rec.emit("envFailWrites", c.cid, 1, ticks(self.loop.time()))
                     else:
                         c.peer_reset()
+                elif what in ("timeout", "unreach"):
+                    # the path to the console is gone: recv() fails with ETIMEDOUT / EHOSTUNREACH (OSErrors outside ConnectionError)
+                    if c.eof_sent:
+                        if not c.fail_writes:
+                            c.fail_writes = True
+                            c.fail_kind = 2 if what == "timeout" else 3
+                            self.rec.emit("envFailWrites", c.cid, 1, ticks(self.loop.time()))
+                    else:
+                        c.peer_reset(2 if what == "timeout" else 3)
                 # network events are processed one per loop iteration by a selector loop: task wake-ups
                 # scheduled by one event run before the next event is looked at
                 await asyncio.sleep(0)
